@@ -6,7 +6,7 @@
 (*          [k |-> "builder", t], [k |-> "tuple", v (sequence of values)],     *)
 (*          [k |-> "cont", c (constructor), ...fields]                         *)
 (*   trees: [b |-> bits, r |-> <<trees>>]                                      *)
-EXTENDS TonBits
+EXTENDS TonHashmap
 Cat(a, b) == [b |-> a.b \o b.b, r |-> a.r \o b.r]
 Only(bits) == [b |-> bits, r |-> <<>>]
 RefTo(t) == [b |-> <<>>, r |-> <<t>>]
@@ -14,16 +14,36 @@ Tag8(x) == NatBits(x, 8)
 Fits64(x) == BigSFits(x, 64)
 Fits257(x) == BigSFits(x, 257)
 
-RECURSIVE EncValue(_), EncTuple(_), EncTupleRef(_), EncCont(_), EncStackList(_)
-\* vm_ctl_data with nothing in it: nargs none, stack none, save (empty HashmapE), cp none
-EmptyCtl == Only(<<0, 0, 0, 0>>)
+RECURSIVE EncValue(_), EncTuple(_), EncTupleRef(_), EncCont(_), EncStackList(_), EncCtl(_), EncStack(_)
+\* vm_ctl_data$_ nargs:(Maybe uint13) stack:(Maybe VmStack) save:VmSaveList cp:(Maybe int16)
+\*   value [nargs |-> <<>> or <<big>>, stack |-> <<>> or <<values>>, save |-> sequence of [k |-> 0..15, v |-> value], cp |-> <<>> or <<big>>]
+\*   _ cregs:(HashmapE 4 VmStackValue) = VmSaveList;
+NoCtl == [nargs |-> <<>>, stack |-> <<>>, save |-> <<>>, cp |-> <<>>]
+CtlOf(c) == IF "cdata" \in DOMAIN c THEN c.cdata ELSE NoCtl
+SaveTree(save) ==
+    LET mp == [key \in {NatBits(save[i].k, 4) : i \in 1..Len(save)} |->
+                 LET e == save[CHOOSE i \in 1..Len(save) : NatBits(save[i].k, 4) = key]
+                     enc == EncValue(e.v)
+                 IN [v |-> enc.b, x |-> <<>>, r |-> enc.r]]
+    IN EdgeP(mp, 4, "canon", FALSE, 0, 0)
+EncCtl(d) ==
+    Cat(Cat(Cat(IF d.nargs = <<>> THEN Only(<<0>>) ELSE Only(<<1>> \o BigUBits(d.nargs[1], 13)),
+                IF d.stack = <<>> THEN Only(<<0>>) ELSE Cat(Only(<<1>>), EncStack(d.stack[1]))),
+            IF d.save = <<>> THEN Only(<<0>>) ELSE [b |-> <<1>>, r |-> <<SaveTree(d.save)>>]),
+        IF d.cp = <<>> THEN Only(<<0>>) ELSE Only(<<1>> \o BigSBits(d.cp[1], 16)))
+\* _ cell:^Cell st_bits:(## 10) end_bits:(## 10) st_ref:(#<= 4) end_ref:(#<= 4) = VmCellSlice;
+\* canonical form: the slice's remaining data is the whole referenced cell
 EncCellSlice(t) == Cat(RefTo(t), Only(NatBits(0, 10) \o NatBits(Len(t.b), 10) \o NatBits(0, 3) \o NatBits(Len(t.r), 3)))
+\* any window [sb, eb) x [sr, er) of a cell t denotes the slice whose remaining data is that window
+EncCellSliceWin(t, sb, eb, sr, er) == Cat(RefTo(t), Only(NatBits(sb, 10) \o NatBits(eb, 10) \o NatBits(sr, 3) \o NatBits(er, 3)))
+Window(t, sb, eb, sr, er) == [b |-> SubSeq(t.b, sb + 1, eb), r |-> SubSeq(t.r, sr + 1, er)]
 EncValue(v) ==
     CASE v.k = "null" -> Only(Tag8(0))
       [] v.k = "int" -> IF Fits64(v.v) THEN Only(Tag8(1) \o BigSBits(v.v, 64))                       \* vm_stk_tinyint#01
                         ELSE Only(<<0, 0, 0, 0, 0, 0, 1, 0, 0, 0, 0, 0, 0, 0, 0>> \o BigSBits(v.v, 257))   \* vm_stk_int#0201_
       [] v.k = "cell" -> Cat(Only(Tag8(3)), RefTo(v.t))
       [] v.k = "slice" -> Cat(Only(Tag8(4)), EncCellSlice(v.t))
+      [] v.k = "slicewin" -> Cat(Only(Tag8(4)), EncCellSliceWin(v.t, v.sb, v.eb, v.sr, v.er))   \* non-canonical window (parse direction only)
       [] v.k = "builder" -> Cat(Only(Tag8(5)), RefTo(v.t))
       [] v.k = "cont" -> Cat(Only(Tag8(6)), EncCont(v))
       [] v.k = "tuple" -> Cat(Only(Tag8(7) \o NatBits(Len(v.v), 16)), EncTuple(v.v))
@@ -35,8 +55,8 @@ EncTupleRef(vals) == IF vals = <<>> THEN Only(<<>>)
                      ELSE IF Len(vals) = 1 THEN RefTo(EncValue(vals[1]))
                      ELSE RefTo(EncTuple(vals))
 EncCont(c) ==
-    CASE c.c = "vmc_std" -> Cat(Cat(Only(<<0, 0>>), EmptyCtl), EncCellSlice(c.code))
-      [] c.c = "vmc_envelope" -> Cat(Cat(Only(<<0, 1>>), EmptyCtl), RefTo(EncCont(c.next)))
+    CASE c.c = "vmc_std" -> Cat(Cat(Only(<<0, 0>>), EncCtl(CtlOf(c))), EncCellSlice(c.code))
+      [] c.c = "vmc_envelope" -> Cat(Cat(Only(<<0, 1>>), EncCtl(CtlOf(c))), RefTo(EncCont(c.next)))
       [] c.c = "vmc_quit" -> Only(<<1, 0, 0, 0>> \o BigSBits(c.exit_code, 32))
       [] c.c = "vmc_quit_exc" -> Only(<<1, 0, 0, 1>>)
       [] c.c = "vmc_repeat" -> Cat(Cat(Only(<<1, 0, 1, 0, 0>> \o BigUBits(c.count, 63)), RefTo(EncCont(c.body))), RefTo(EncCont(c.after)))
@@ -50,6 +70,16 @@ EncStackList(vals) == IF vals = <<>> THEN Only(<<>>)
                       ELSE Cat(RefTo(EncStackList(SubSeq(vals, 1, Len(vals) - 1))), EncValue(vals[Len(vals)]))
 EncStack(vals) == Cat(Only(NatBits(Len(vals), 24)), EncStackList(vals))
 
+\* the value a parser reports for an encoded value: a windowed slice is just the slice of its window
+RECURSIVE Norm(_)
+Norm(v) == CASE v.k = "slicewin" -> [k |-> "slice", t |-> Window(v.t, v.sb, v.eb, v.sr, v.er)]
+             [] v.k = "tuple" -> [k |-> "tuple", v |-> [i \in 1..Len(v.v) |-> Norm(v.v[i])]]
+             [] OTHER -> v
+\* a stack is representable iff every cell of its encoding respects the cell limits (everything is inline by schema,
+\* so e.g. a continuation with saved stack, saved registers and code below another stack entry needs 5 references)
+RECURSIVE TreeFits(_)
+TreeFits(t) == Len(t.b) <= 1023 /\ Len(t.r) <= 4 /\ \A j \in 1..Len(t.r) : TreeFits(t.r[j])
+Representable(vals) == TreeFits(EncStack(vals))
 RECURSIVE ValueOk(_)
 ValueOk(v) == CASE v.k = "int" -> Fits257(v.v)
                 [] v.k = "tuple" -> Len(v.v) < 65536 /\ \A i \in 1..Len(v.v) : ValueOk(v.v[i])
